@@ -1239,5 +1239,19 @@ func ConcScenarios(tier string) []Conc {
 	add(Conc{Name: "header/2x1", Tree: Leaf(KHeader), Threads: two, Preempt: pb})
 	add(Conc{Name: "pingback/2x1req", Tree: Leaf(KPingback), Threads: [][]Msg{{seen}, {seen}}, ReqOnly: true})
 	add(Conc{Name: "group(method,query)/2x1req", Tree: Group(Leaf(KMethod), Leaf(KQuery)), Threads: two, ReqOnly: true, Preempt: pb})
+
+	// ---- two overlapping queries (a seeded change shared one tree walk between concurrent queries): each query is
+	// judged on its own interval - every failure whose recording completed before THAT query began is in ITS answer.
+	// The walk of the first query can be suspended after it has visited a verifier: a filter consults its else
+	// branch first and takes no lock, a group in the true branch makes the walk wait for the request in flight in
+	// it; a container's result is a snapshot, so what is recorded afterwards is missing from it.
+	fgh := FilterTE(Group(Leaf(KFailure)), Leaf(KHeader)).Number()
+	fghTrue := Msg{Sel: 1 << uint(fgh.ID)}
+	add(Conc{Name: "group(failure)/1x1req+2query", Tree: Group(Leaf(KFailure)), Threads: one, ReqOnly: true, Queries: 2, Preempt: pb})
+	add(Conc{Name: "filterTE(failure,failure)/1x1req+2query", Tree: fte, Threads: one, ReqOnly: true, Queries: 2, Preempt: pb})
+	add(Conc{Name: "filterTE(group(failure),header)/2x1req+2query", Tree: fgh, Threads: [][]Msg{{fghTrue}, {unmet}}, ReqOnly: true, Queries: 2, Preempt: 2})
+	add(Conc{Name: "filterE(status)/1x1+2query", Tree: FilterE(Leaf(KStatus)), Threads: one, Queries: 2, Preempt: pb})
+	add(Conc{Name: "group(header,failure)/prime+1x1req+2query+reset", Tree: Group(Leaf(KHeader), Leaf(KFailure)), Prime: []Msg{unmet}, Threads: one, ReqOnly: true, Queries: 2, Reset: true, Preempt: 2, Heavy: true})
+	add(Conc{Name: "filterTE(group(failure),header)/2x1+2query", Tree: fgh, Threads: [][]Msg{{fghTrue}, {unmet}}, Queries: 2, Preempt: 2, Heavy: true})
 	return out
 }
